@@ -230,6 +230,13 @@ def oracle_delivery(f, ctxv):
         r = f.rets().get(u)
         if r == 'eoq' and not res['closed']:
             ctxv(f'receive of user {u} was cancelled on an open session but raised EndOfQueue')
+    # a cancel() that reached a still pending receive must come out of it as the cancellation (C04: "raises that cancellation")
+    recv_users = {it[1] for it in f.script if it[0] == 'recv'}
+    for ev, _ in res['log']:
+        if isinstance(ev, list) and ev[0] == 'cancel' and ev[1] in recv_users:
+            r = f.rets().get(ev[1])
+            if isinstance(r, list) and r[0] == 'msg':
+                ctxv(f'receive of user {ev[1]} was cancelled while pending but returned message {r[1]} instead of raising the cancellation')
     if not res['closed'] and not stopped and cfg['mode'] == 'callback' and f.rets() and 'ok' in f.rets().values():
         # logged in, callback mode, session still open, no handler that never returns: everything must have arrived
         behs = [cfg['default_beh']] + list(cfg['msg_beh'].values())
